@@ -75,7 +75,10 @@ pub fn known_shapes(root: &SyntaxNode) -> Vec<&'static str> {
             }
         }
         // F4: blanks before a line feed inside a string
-        if l.kind == K::Str && l.text.contains('\n') && l.text.lines().any(|x| x.ends_with(|c: char| c.is_whitespace())) {
+        if l.kind == K::Str && l.text.contains('\n') && {
+            let parts: Vec<&str> = l.text.split('\n').collect();
+            parts[..parts.len() - 1].iter().any(|x| x.ends_with(|c: char| c.is_whitespace()))
+        } {
             add("F4");
         }
     }
